@@ -40,6 +40,13 @@ var timeT = reflect.TypeOf(time.Time{})
 
 // DeepEq: structural equality with nil == empty (slices, maps, strings), big.Int by value, time by instant.
 func DeepEq(a, b reflect.Value) (bool, string) {
+	// a value held in an interface-typed variable is compared as the value it holds
+	for a.IsValid() && a.Kind() == reflect.Interface && !a.IsNil() {
+		a = a.Elem()
+	}
+	for b.IsValid() && b.Kind() == reflect.Interface && !b.IsNil() {
+		b = b.Elem()
+	}
 	if !a.IsValid() || !b.IsValid() {
 		if a.IsValid() != b.IsValid() {
 			// nil interface vs something: equal only if the something is an empty/nil value
@@ -167,9 +174,15 @@ type Gen struct {
 }
 
 func (g *Gen) addr() sdk.Address {
-	switch g.R.Intn(8) {
+	switch g.R.Intn(10) {
 	case 0:
 		return nil
+	case 1:
+		return make(sdk.Address, 20) // the all-zero address is an address like any other
+	case 2:
+		a := make(sdk.Address, 20)
+		a[g.R.Intn(20)] = byte(1 + g.R.Intn(255)) // a single non-zero byte
+		return a
 	default:
 		return sdk.Address(g.R.Bytes(24)[:20])
 	}
@@ -276,7 +289,11 @@ func (g *Gen) msg() sdk.Msg {
 	case 3:
 		return posTypes.MsgSend{FromAddress: g.addr(), ToAddress: g.addr(), Amount: g.intv()}
 	case 4:
-		return govTypes.MsgChangeParam{FromAddress: g.addr(), ParamKey: []string{"pos/MaxValidators", "", "gov/acl", "a/b/c"}[r.Intn(4)], ParamVal: r.Bytes(r.Intn(40))}
+		pv := r.Bytes(r.Intn(40))
+		if r.Bool() {
+			pv = []byte(g.jsonDoc(0)) // what real parameter changes carry: a JSON value
+		}
+		return govTypes.MsgChangeParam{FromAddress: g.addr(), ParamKey: []string{"pos/MaxValidators", "", "gov/acl", "a/b/c"}[r.Intn(4)], ParamVal: pv}
 	case 5:
 		return govTypes.MsgDAOTransfer{FromAddress: g.addr(), ToAddress: g.addr(), Amount: g.intv(), Action: []string{"dao_transfer", "dao_burn", "", "x"}[r.Intn(4)]}
 	default:
@@ -321,7 +338,7 @@ func (g *Gen) timev() time.Time {
 // Value draws one value of a wire / storage type together with a constructor of an empty destination.
 func (g *Gen) Value() (name string, val interface{}, dst func() interface{}) {
 	r := g.R
-	switch r.Intn(14) {
+	switch r.Intn(15) {
 	case 0, 1, 2:
 		return "StdTx", g.stdTx(), func() interface{} { return new(authTypes.StdTx) }
 	case 3:
@@ -367,6 +384,8 @@ func (g *Gen) Value() (name string, val interface{}, dst func() interface{}) {
 		return "Int", g.intv(), func() interface{} { return new(sdk.Int) }
 	case 12:
 		return "Dec", g.dec(), func() interface{} { return new(sdk.Dec) }
+	case 13:
+		return "PublicKey", g.pub(), func() interface{} { return new(crypto.PublicKey) }
 	default:
 		return "Address", g.addr(), func() interface{} { return new(sdk.Address) }
 	}
@@ -523,7 +542,15 @@ func mutateMsg(m sdk.Msg, g *Gen) []msgMut {
 		a, b, c := x, x, x
 		a.FromAddress, b.ParamKey = other(x.FromAddress, g), x.ParamKey+"x"
 		c.ParamVal = append(append([]byte{}, x.ParamVal...), 1)
-		return []msgMut{{"changeparam.from", a}, {"changeparam.key", b}, {"changeparam.value", c}}
+		out := []msgMut{{"changeparam.from", a}, {"changeparam.key", b}, {"changeparam.value", c}}
+		if len(x.ParamVal) > 0 {
+			// other bytes spelling the same JSON value are still another transaction
+			d, e := x, x
+			d.ParamVal = append([]byte(" "), x.ParamVal...)
+			e.ParamVal = append(append([]byte{}, x.ParamVal...), '\n')
+			out = append(out, msgMut{"changeparam.value-whitespace", d}, msgMut{"changeparam.value-trailing-newline", e})
+		}
+		return out
 	case govTypes.MsgDAOTransfer:
 		a, b, c, d := x, x, x, x
 		a.FromAddress, b.ToAddress, d.Action = other(x.FromAddress, g), other(x.ToAddress, g), x.Action+"x"
